@@ -5,7 +5,7 @@
  "enforce": ["SHA256_Update_internal"],
  "replace": ["SHA256_Transform"],
  "annotate": ["alg/sha256.c"],
- "defines": ["VERIF_HALLOC", "SHA_MAXOBJ=130"],
+ "defines": ["VERIF_HALLOC", "SHA_MAXOBJ=130", "HASH_MEMCPY_ONLY_BUF"],
  "models": ["models/hash_memcpy.c"],
  "thorough_defines": ["SHA_MAXOBJ=1024"],
  "timeout": 600,
